@@ -6,7 +6,9 @@ package props
 import (
 	"encoding/json"
 	"fmt"
+	"os"
 	"reflect"
+	"strconv"
 	"testing"
 
 	"pgregory.net/rapid"
@@ -154,6 +156,69 @@ func init() {
 			return err
 		}
 		_, _, err := runC18(&c)
+		return err
+	})
+}
+
+// ---------------------------------------------------------------- C18 through the real worker
+
+const c18PipeRule = " | worker stage (TestC18Pipe): generated sFlow pipelines (generator of C12: IPv4 and IPv6 agents, mixed sizes, malformed datagrams, cross traffic, worker churn) with a non-empty filter list run through the real " +
+	"sFlowWorker of the package-main driver; oracle = the published payloads equal, one by one, the library decode of each datagram under the same filter (so nothing between the option and the decoder drops or keeps more than the filter says)"
+
+func TestC18Pipe(t *testing.T) {
+	col := getCollector("C18", "")
+	col.Rule += c18PipeRule
+	col.sampler = summarisePipelineOrSelf
+	defer drivers.stopAll()
+	envs := map[string]*wire.GenEnv{"ipfix": wire.NewGenEnv("ipfix"), "nf9": wire.NewGenEnv("nf9")}
+	envs["ipfix"].NoEnterprise = true
+	gen := rapid.Custom(func(t *rapid.T) plCase {
+		c := genPipeline(t, "sflow", envs, 200)
+		for len(c.Filter) == 0 {
+			c.Filter = genFilter(t)
+			if len(c.Filter) == 0 {
+				c.Filter = []uint32{rapid.SampledFrom([]uint32{1, 2, 9}).Draw(t, "onefilter")}
+			}
+		}
+		c.Race = false
+		return c
+	})
+	n := 4
+	if s := os.Getenv("VERIF_PIPE_CASES"); s != "" {
+		if x, err := strconv.Atoi(s); err == nil && x > 0 {
+			n = x
+		}
+	}
+	seed := e2eSeed()
+	for i := 0; i < n; i++ {
+		c := gen.Example(seed*1000 + 300 + i)
+		v, sig, err := runPipeline("C18", &c)
+		v.NT = true
+		v.label(true, "worker-stage")
+		col.report(t, mustJSON(c), v, sig, err)
+		col.addExtra("worker_stage_cases", 1)
+	}
+}
+
+// summarisePipelineOrSelf: pipeline cases are summarised, library cases are kept as they are.
+func summarisePipelineOrSelf(cj []byte) []byte {
+	var probe struct {
+		Phases json.RawMessage `json:"phases"`
+	}
+	if json.Unmarshal(cj, &probe) == nil && len(probe.Phases) > 0 {
+		return summarisePipeline(cj)
+	}
+	return cj
+}
+
+func init() {
+	registerReplayExtra("C18", "phases", func(raw json.RawMessage) error {
+		defer drivers.stopAll()
+		var c plCase
+		if err := json.Unmarshal(raw, &c); err != nil {
+			return err
+		}
+		_, _, err := runPipeline("C18", &c)
 		return err
 	})
 }
